@@ -15,8 +15,9 @@ READING: library convention: "no line at all" also counts as a loop (possible on
 from . import _loop
 
 NAME = "geradeweg"
-STATUS = "model+differential"
-THEOREMS = []
+STATUS = "theorem"
+THEOREMS = ["Cspuz.C11.Geradeweg.program_iff_rules", "Cspuz.C11.Geradeweg.total"]
+LEAN_FILE = "C11_Geradeweg"
 LEAN_CMD = "puz_geradeweg"
 
 _SHAPES = [(1, 1), (1, 3), (3, 1), (2, 2), (2, 3), (3, 2), (2, 4), (4, 2), (3, 3), (3, 4), (4, 3), (3, 4), (4, 3), (3, 3)]
